@@ -304,7 +304,14 @@ int main (int argc, char *argv[])
 	case OPT_HELP:
 	  {
 	    DFS::CommandHelp help;
-	    return help.invoke(storage, ctx, extra_args) ? 0 : 1;
+	    bool ok = help.invoke(storage, ctx, extra_args);
+	    std::cout.flush();
+	    if (!std::cout)
+	      {
+		std::cerr << "error: failed to write to standard output\n";
+		ok = false;
+	      }
+	    return ok ? 0 : 1;
 	  }
 	}
     }
